@@ -72,7 +72,7 @@ func opsString(ops []int) string {
 
 func (p Prog) String() string {
 	s := fmt.Sprintf("%s n=%d", p.Kind, p.N)
-	if p.Kind == "shared" || p.Kind == "multi" || p.Kind == "dshuf" {
+	if p.Kind == "shared" || p.Kind == "multi" || p.Kind == "dshuf" || p.Kind == "twin" {
 		s += fmt.Sprintf(" shape=%d m=%d k=%d", p.Shape, p.M, p.K)
 	}
 	if len(p.Ops) > 0 {
@@ -263,6 +263,23 @@ func build(p Prog, in ...bigslice.Slice) bigslice.Slice {
 			r := bigslice.Reshard(s, p.M)
 			return join(bigslice.Reduce(bigslice.Reduce(r, add), add), bigslice.Reshard(r, p.K))
 		}
+	case "twin":
+		// A cached branch joined with an UNCACHED twin branch that has the same operator
+		// sequence (hence the same op-name sequence), in one invocation. Shape 1: both
+		// branches are built on one shared sub-slice. K selects Cache/CachePartial, M the
+		// branch order. The cache operator sits at "position" len(Ops).
+		src := func() bigslice.Slice { return constSrc(p.N) }
+		if p.Shape == 1 {
+			shared := bigslice.Map(constSrc(p.N), func(k, v int) (int, int) { return k, v })
+			src = func() bigslice.Slice { return shared }
+		}
+		cached := applyOp(applyChain(src(), Prog{}, p.Ops), p.K, nil, cachePrefixAt(p.Prefix, len(p.Ops)))
+		twin := applyChain(src(), Prog{}, p.Ops)
+		a, b := cached, twin
+		if p.M == 1 {
+			a, b = twin, cached
+		}
+		return bigslice.Map(bigslice.Cogroup(a, b), func(k int, x, y []int) (int, int) { return k, len(x) + len(y) })
 	case "dshuf":
 		// One slice value x consumed BOTH directly (pipelined / narrow dependency) and
 		// through shuffles into 1, 2 and 3 shards, in one invocation. Ops lists the
@@ -456,6 +473,31 @@ func enumerate(thorough bool) []Case {
 							{0, Prog{Kind: "chain", N: n, Ops: []int{opMap}}, nil},
 							{fn, p, []int{0}},
 						}})
+					}
+				}
+			}
+		}
+	}
+
+	// F0b (early, cheap): a cached branch joined with an uncached twin branch with the same
+	// operator sequence; Cache and CachePartial; every subset of shards pre-cached
+	// (including all: a fully warm cache); both branch orders; twin on a shared sub-slice.
+	for _, ops := range [][]int{{opMap, opReduce}, {opReduce}, {opReshard2, opMap}, {opMap}} {
+		for _, cop := range []int{opCache, opCachePartial} {
+			for n := 1; n <= 3; n++ {
+				sh := n
+				for _, o := range ops {
+					sh = shardsAfter(sh, o)
+				}
+				for shape := 0; shape <= 1; shape++ {
+					for order := 0; order <= 1; order++ {
+						for mask := 1<<uint(sh) - 1; mask >= 0; mask-- { // fully warm first
+							for _, flip := range []bool{false, true} {
+								both(Case{Family: "cache-twin/" + opNames[cop],
+									Steps:    []Step{{0, Prog{Kind: "twin", N: n, Shape: shape, M: order, K: cop, Ops: ops}, nil}},
+									CachePos: []int{len(ops)}, CacheShards: []int{sh}, CacheMask: []int{mask}, Flip: flip})
+							}
+						}
 					}
 				}
 			}
